@@ -90,8 +90,11 @@ type TaskInfo struct {
 	PanicStr string `json:"panic,omitempty"`
 	Stack    string `json:"stack,omitempty"`
 	Pending  string `json:"pending,omitempty"` // what an unfinished task is parked on
-	PendKind OpKind `json:"-"`
-	PendObj  int    `json:"-"`
+	// ActiveAfterMark: the task initiated an operation (synchronisation or tracked
+	// access) after the harness called Mark()
+	ActiveAfterMark bool   `json:"active_after_mark,omitempty"`
+	PendKind        OpKind `json:"-"`
+	PendObj         int    `json:"-"`
 }
 
 // Result is what a run produced.
@@ -137,15 +140,18 @@ type task struct {
 	randReads int
 	label     string
 	// unbuffered rendezvous
-	sendVal   any
-	sendTaken bool
-	xferVal   any
-	xferReady bool
-	condWake  bool
-	selCases  []SelCase
-	selForced int
-	stall     int  // scheduling decisions this task still sits out (if others can run)
-	stepAside bool // voluntary yield: sits out the next decision if others can run
+	sendVal       any
+	sendTaken     bool
+	xferVal       any
+	xferReady     bool
+	condWake      bool
+	selCases      []SelCase
+	selForced     int
+	stall         int   // scheduling decisions this task still sits out (if others can run)
+	stepAside     bool  // voluntary yield: sits out the next decision if others can run
+	stepAsideNext bool  // the next scheduling point of this task is a step-aside (after a select that took its default, a failed TryLock)
+	lastInit      int64 // event sequence number at which this task last INITIATED an operation
+	waited        int   // decisions for which this task was enabled and not chosen
 }
 
 // Sim is the state of the running simulation.
@@ -179,6 +185,8 @@ type Sim struct {
 	aborting    bool
 	strategy    int
 	consecutive int           // decisions in a row that went to the same task
+	markSeq     int64         // set by Mark()
+	lastPoll    int           // step of the last voluntary yield / polling step-aside
 	now         time.Duration // simulated time beyond the event counter (sleeps and jumps)
 	// strategy state
 	pctChange []int
@@ -319,6 +327,7 @@ func Run(cfg Config, root func()) *Result {
 	// Post-mortem description before unwinding the parked tasks.
 	for _, t := range s.tasks {
 		ti := TaskInfo{ID: t.id, Name: t.name, Finished: t.finished, Panicked: t.panicked, PanicVal: t.panicVal, Stack: t.stack}
+		ti.ActiveAfterMark = s.markSeq > 0 && t.lastInit > s.markSeq
 		if t.panicked {
 			ti.PanicStr = fmt.Sprint(t.panicVal)
 		}
@@ -419,6 +428,11 @@ func (s *Sim) taskMain(t *task) {
 // yield parks the current task with its pending operation and returns when the
 // scheduler has chosen it and the operation cannot block.
 func (s *Sim) yield(t *task) {
+	t.lastInit = s.seq
+	if t.stepAsideNext {
+		t.stepAside = true
+		t.stepAsideNext = false
+	}
 	s.schedule(t, true)
 }
 
@@ -470,6 +484,7 @@ func (s *Sim) schedule(from *task, park bool) {
 			t.stall--
 		}
 	}
+	steppedAside := from != nil && from.stepAside
 	if from != nil {
 		from.stepAside = false
 	}
@@ -509,13 +524,46 @@ func (s *Sim) schedule(from *task, park bool) {
 			}
 		}
 	}
+	if steppedAside {
+		s.lastPoll = s.steps
+	}
+	if s.strategy == StratPCT && !s.replay && steppedAside {
+		// PCT's rule for voluntary yields: the yielding task drops below
+		// everybody, otherwise two polling tasks of high priority would hand the
+		// processor to each other forever
+		s.pctLow--
+		from.prio = s.pctLow
+	}
 	idx := s.draw(len(enabled), func() int {
 		i := s.pickIndex(enabled, curEnabled)
+		// starvation guard: no strategy may leave an enabled task unchosen for
+		// more than 40 decisions (Go's scheduler is preemptive and roughly fair;
+		// a correct program that polls must make progress here too)
+		// It only acts while somebody is polling (a voluntary yield, a select
+		// that took its default or a failed TryLock within the last 64
+		// decisions); programs that never poll get the strategies unmodified.
+		if s.steps-s.lastPoll < 64 {
+			oldest, age := -1, 40
+			for k, t := range enabled {
+				if t.waited > age {
+					oldest, age = k, t.waited
+				}
+			}
+			if oldest >= 0 {
+				i = oldest
+			}
+		}
 		// fairness guard: no strategy may run one task for more than 1000
 		// consecutive decisions while others could run (a loop that polls under
 		// a lock terminates under Go's preemptive scheduler, so it must here)
-		if len(enabled) > 1 && enabled[i] == s.cur && s.consecutive > 1000 {
+		if len(enabled) > 1 && enabled[i] == s.cur && s.consecutive > 200 {
 			i = (i + 1) % len(enabled)
+			if s.strategy == StratPCT && s.cur != nil {
+				// the spinner loses its priority, otherwise it would be picked
+				// again at once and the others would get one step in 200
+				s.pctLow--
+				s.cur.prio = s.pctLow
+			}
 		}
 		return i
 	})
@@ -525,6 +573,10 @@ func (s *Sim) schedule(from *task, park bool) {
 	} else {
 		s.consecutive = 0
 	}
+	for _, t := range enabled {
+		t.waited++
+	}
+	next.waited = 0
 	if curEnabled && idx != 0 {
 		s.probes["preemptions"]++
 	}
@@ -712,6 +764,16 @@ func TaskID() int {
 func SetLabel(l string) {
 	if s := S; s != nil && s.cur != nil {
 		s.cur.label = l
+	}
+}
+
+// Mark records "now".  After the run TaskInfo.ActiveAfterMark tells which tasks
+// initiated an operation later than that (a task that is merely being resumed
+// from an operation its partner already completed for it does not count).
+func Mark() {
+	if s := S; s != nil {
+		s.seq++
+		s.markSeq = s.seq
 	}
 }
 
